@@ -13,15 +13,16 @@ open Rsactor Rsactor.Model Rsactor.Monitor
 
 /-- `never_spontaneous`: a live actor begins to stop only in one of five steps — the kill signal is
     consumed; the control channel is observed closed with no strong reference left; the stop marker is
-    dequeued; the mailbox is observed closed and empty with no strong reference left; on_run returned an
-    error.  Nothing else (in particular not on_run returning Ok(false), not a weak handle operation)
+    dequeued; the mailbox is observed closed and empty with no strong reference left (in these two, killed is true
+    exactly if a kill signal has arrived meanwhile: the loop looks at the control channel once more); on_run
+    returned an error.  Nothing else (in particular not on_run returning Ok(false), not a weak handle operation)
     takes it there. -/
 theorem never_spontaneous (s s' : Sys) (l : Label) (hs : step? s l = some s')
     (hlive : pcStopped s.pc = false) (k r m : Bool) (hpc : s'.pc = .stopping k r m) :
     (l = .pollTerm ∧ s.termSlot = true ∧ k = true) ∨
     (l = .pollTerm ∧ s.termSlot = false ∧ s.strongCount = 0 ∧ k = false) ∨
-    (l = .pollMail ∧ (∃ o rest, s.mbox = .stop o :: rest) ∧ k = false ∧ m = true) ∨
-    (l = .pollMail ∧ s.mbox = [] ∧ s.strongCount = 0 ∧ k = false) ∨
+    (l = .pollMail ∧ (∃ o rest, s.mbox = .stop o :: rest) ∧ k = s.termSlot ∧ m = true) ∨
+    (l = .pollMail ∧ s.mbox = [] ∧ s.strongCount = 0 ∧ k = s.termSlot) ∨
     (l = .pollRun ∧ r = true ∧ k = false) := by
   step_cases l hs
   all_goals (try (simp at hpc; done))
